@@ -176,6 +176,24 @@ func (v *parser_) formatError(token TokenLike) string {
 	return message
 }
 
+func (v *parser_) makeSet(
+	notation col.NotationLike,
+	sequence col.Sequential[any],
+	token TokenLike,
+) col.SetLike[any] {
+	// A set orders its members, which ranks them; members nested deeper than
+	// the collator follows cannot be ranked.  That is a property of the source
+	// and is reported like any other problem with it.
+	defer func() {
+		if problem := recover(); problem != nil {
+			var message = v.formatError(token)
+			message += fmt.Sprintf("The members of the Set cannot be ordered: %v\n", problem)
+			panic(message)
+		}
+	}()
+	return col.Set[any](notation).MakeFromSequence(sequence)
+}
+
 func (v *parser_) formatMismatch(token TokenLike, context string) string {
 	// The items of a catalog or map must be associations.
 	var message = v.formatError(token)
@@ -345,7 +363,7 @@ func (v *parser_) parseCollection() (
 	case "Queue":
 		collection = col.Queue[any](notation).MakeFromSequence(sequence)
 	case "Set":
-		collection = col.Set[any](notation).MakeFromSequence(sequence)
+		collection = v.makeSet(notation, sequence, token)
 	case "Stack":
 		collection = col.Stack[any](notation).MakeFromSequence(sequence)
 	default:
